@@ -51,6 +51,7 @@ def run(chk):
                        "accepted they must store the address they obviously denote (zero-padded / decimal reading)",
                        "signs and IPv4-mapped mixed notation are outside the property and not judged"]
     chk.floor = 800
+    chk.rule += '; plus IPv4-mapped / compatible / NAT64-prefixed addresses, the text of one address assigned to the other (and swaps), tolerated spellings (one-digit MAC octets, leading zeros) that must be rejected or store the address they denote'
     work = core.scratch_dir()
     try:
         m = pkt.rand_bytes(rng, 12)
